@@ -5,7 +5,23 @@ Python generator/oracle of tools/props/c17.py.
 This reads the SAME trait text the proc-macro reads (attributes, names, aliases, param_kind, blocking/async, argument
 renames, `Option<..>` parameters, return / item types), with a small tokenizer and recursive-descent parser for the
 plain style used in that file.  Anything it does not understand is an error string (a broken correspondence), never a
-guess."""
+guess.
+
+Parameter names.  An identifier token is kept as written, raw identifiers included (`r#type`): that is what
+`syn::Ident::to_string()` yields and what `RpcFnArg::name` hands to BOTH renderers when there is no
+`#[argument(rename = "..")]`.  The by-name KEYS are not assumed, they are derived with rules read from the proc-macro
+sources on every run (`key_rules()`):
+  proc-macros/src/rpc_macro.rs      RpcFnArg::name                  rename, else the identifier's text (with or without `r#`)
+  proc-macros/src/render_client.rs  encode_params, ParamKind::Map   the expression inserted as the member key
+  proc-macros/src/render_server.rs  render_params_decoding          `#[serde(rename = ..)]` and every `alias = "{}"` of a field
+Each of these is a small string expression over `name` (method chains of str/String/heck functions, see `_Expr`); it is
+turned into a list of operations, applied here to every parameter of the family, and written to MacroApiGen.v as
+`family_keys` (client key, server keys per parameter).  Props/C17.v (C17_by_name_keys_agree) then needs: the client key is
+one of the server's keys, they are the keys the model uses, and no two parameters of a method share one.  A change on one
+side only (e.g. the client stripping `r#`) therefore changes the generated constant and the theorem no longer compiles; an
+expression outside the understood fragment is an error string.  heck's snake_case / lowerCamelCase are ported below
+(`snake`, `camel`; the same port serves the Python reference of tools/props/c17.py); what the real heck does with
+`r#type`, `_x`, `x_`, `x1y` is judged by the differential run over the compiled family."""
 import os, re
 import vlib
 
@@ -175,7 +191,10 @@ def parse_params(p):
                 raise ParseError("parameter attribute %s not understood" % an)
             known(akv, {"rename"}, "argument")
             rename = akv.get("rename")
+        # the identifier as written: `r#type` stays `r#type` (the text syn::Ident::to_string() gives)
         ident = p.eat("id")
+        if rename is not None and not isinstance(rename, str):
+            raise ParseError("argument(rename = ..) of %s is not a string literal" % ident)
         p.eat("p", ":")
         t = p.ty()
         # helpers::is_option is syntactic: the last path segment is `Option`
@@ -375,6 +394,367 @@ def family():
     return load()
 
 
+# ---------------------------------------------------------------- heck 0.5 `transform`, ported from the Rust source
+# (ASCII case classes; other chars: str.isalnum / caseless).  Also used by the Python reference of tools/props/c17.py.
+
+def heck_words(s):
+    words = []
+    piece = ""
+    pieces = []
+    for ch in s:
+        if ch.isalnum():
+            piece += ch
+        else:
+            pieces.append(piece)
+            piece = ""
+    pieces.append(piece)
+    low = lambda c: "a" <= c <= "z"
+    up = lambda c: "A" <= c <= "Z"
+    for w in pieces:
+        init, mode = 0, "b"
+        i = 0
+        while i < len(w):
+            c = w[i]
+            if i + 1 < len(w):
+                nxt = w[i + 1]
+                next_mode = "l" if low(c) else "u" if up(c) else mode
+                if next_mode == "l" and up(nxt):
+                    words.append(w[init:i + 1])
+                    init, mode = i + 1, "b"
+                elif mode == "u" and up(c) and low(nxt):
+                    words.append(w[init:i])
+                    init, mode = i, "b"
+                else:
+                    mode = next_mode
+            else:
+                words.append(w[init:])
+            i += 1
+    return words
+
+
+def snake(s):
+    return "_".join(w.lower() for w in heck_words(s))
+
+
+def camel(s):
+    ws = heck_words(s)
+    return "".join(w.lower() if i == 0 else w[:1].upper() + w[1:].lower() for i, w in enumerate(ws))
+
+
+# ---------------------------------------------------------------- the macro's by-name key rules, read from /repo/proc-macros
+
+RTOK = re.compile(r"""\s*(?:(r\#"(?:[^"]|"(?!\#))*"\#|"(?:[^"\\]|\\.)*")|('(?:[^'\\]|\\.)')|([A-Za-z_][A-Za-z0-9_]*)|(::|\|\||=>|->|[.()&,|!\#\[\]=;{}:<>*+\-?]))""")
+
+
+def _rtokens(text):
+    toks, pos = [], 0
+    text = re.sub(r"//[^\n]*", "", text)
+    while True:
+        if text[pos:].strip() == "":
+            return toks
+        m = RTOK.match(text, pos)
+        if not m:
+            raise ParseError("key rule: cannot tokenize %r" % text[pos:pos + 50].strip())
+        pos = m.end()
+        if m.group(1) is not None:
+            lit = m.group(1)
+            if lit.startswith("r#"):
+                toks.append(("str", lit[3:-2]))
+            else:
+                body = lit[1:-1]
+                if "\\" in body:
+                    raise ParseError("key rule: escape in literal %s" % lit)
+                toks.append(("str", body))
+        elif m.group(2) is not None:
+            body = m.group(2)[1:-1]
+            if "\\" in body:
+                raise ParseError("key rule: escape in literal %s" % m.group(2))
+            toks.append(("str", body))
+        elif m.group(3) is not None:
+            toks.append(("id", m.group(3)))
+        else:
+            toks.append(("p", m.group(4)))
+
+
+IDENTITY = {"as_str", "to_string", "clone", "to_owned", "as_ref", "into", "borrow"}
+NULLARY = {"to_snake_case": "snake", "to_lower_camel_case": "camel", "to_lowercase": "lower", "to_ascii_lowercase": "lower",
+           "to_uppercase": "upper", "to_ascii_uppercase": "upper", "unraw": "unraw"}
+UNARY = {"trim_start_matches": "ltrim", "trim_end_matches": "rtrim", "trim_matches": "trim"}
+HECK_PATHS = {("heck", "ToSnakeCase", "to_snake_case"): "snake", ("heck", "ToLowerCamelCase", "to_lower_camel_case"): "camel"}
+
+
+class _Expr:
+    """string expressions of the renderers -> tuple of operations on the parameter's name.
+         E ::= & E | heck::Trait::fn(E) | String::from(E) | A (. m(args))*        A ::= <closure argument>.name() | <let-bound variable>
+       m: identity conversions; to_snake_case / to_lower_camel_case / to_*case / unraw;
+          strip_prefix("l").unwrap_or(E') / strip_suffix("l").unwrap_or(E') with E' the receiver again;
+          trim_start_matches / trim_end_matches / trim_matches("l"); replace("a", "b")"""
+
+    def __init__(self, toks, env, argvars, where):
+        self.p, self.env, self.argvars, self.where = P(toks), env, argvars, where
+
+    def fail(self, what):
+        raise ParseError("%s: %s (token %d of %r)" % (self.where, what, self.p.i, " ".join(t[1] for t in self.p.t)))
+
+    def expr(self):
+        p = self.p
+        while p.at("p", "&"):
+            p.next()
+        first = p.eat("id")
+        if p.at("p", "::"):
+            path = [first]
+            while p.at("p", "::"):
+                p.next()
+                path.append(p.eat("id"))
+            p.eat("p", "(")
+            inner = self.expr()
+            p.eat("p", ")")
+            if tuple(path) in HECK_PATHS:
+                ops = inner + ((HECK_PATHS[tuple(path)],),)
+            elif tuple(path) == ("String", "from"):
+                ops = inner
+            else:
+                self.fail("function %s not understood" % "::".join(path))
+        elif first in self.argvars:
+            p.eat("p", ".")
+            if p.eat("id") != "name":
+                self.fail("only .name() of the argument is understood")
+            p.eat("p", "(")
+            p.eat("p", ")")
+            ops = ()
+        elif first in self.env:
+            ops = self.env[first]
+        else:
+            self.fail("variable %s is not bound to a name expression" % first)
+        while p.at("p", "."):
+            p.next()
+            m = p.eat("id")
+            p.eat("p", "(")
+            if m in IDENTITY:
+                p.eat("p", ")")
+            elif m in NULLARY:
+                p.eat("p", ")")
+                ops = ops + ((NULLARY[m],),)
+            elif m in UNARY:
+                lit = p.eat("str")
+                p.eat("p", ")")
+                ops = ops + ((UNARY[m], lit),)
+            elif m == "replace":
+                a = p.eat("str")
+                p.eat("p", ",")
+                b = p.eat("str")
+                p.eat("p", ")")
+                ops = ops + (("replace", a, b),)
+            elif m in ("strip_prefix", "strip_suffix"):
+                lit = p.eat("str")
+                p.eat("p", ")")
+                p.eat("p", ".")
+                if p.eat("id") != "unwrap_or":
+                    self.fail("%s(..) must be followed by .unwrap_or(<the same string>)" % m)
+                p.eat("p", "(")
+                other = self.expr()
+                p.eat("p", ")")
+                if other != ops:
+                    self.fail("%s(..).unwrap_or(..) falls back to a different string" % m)
+                ops = ops + (("lstrip1" if m == "strip_prefix" else "rstrip1", lit),)
+            else:
+                self.fail("method .%s() not understood" % m)
+        return ops
+
+
+def _eval(toks, env, argvars, where):
+    e = _Expr(toks, env, argvars, where)
+    ops = e.expr()
+    if not e.p.at("eof"):
+        e.fail("trailing tokens")
+    return ops
+
+
+def apply_ops(ops, s):
+    for op in ops:
+        k = op[0]
+        if k == "snake":
+            s = snake(s)
+        elif k == "camel":
+            s = camel(s)
+        elif k == "lower":
+            s = s.lower()
+        elif k == "upper":
+            s = s.upper()
+        elif k == "unraw":
+            s = s[2:] if s.startswith("r#") else s
+        elif k == "lstrip1":
+            s = s[len(op[1]):] if op[1] and s.startswith(op[1]) else s
+        elif k == "rstrip1":
+            s = s[:-len(op[1])] if op[1] and s.endswith(op[1]) else s
+        elif k in ("ltrim", "trim"):
+            while op[1] and s.startswith(op[1]):
+                s = s[len(op[1]):]
+            if k == "trim":
+                while op[1] and s.endswith(op[1]):
+                    s = s[:-len(op[1])]
+        elif k == "rtrim":
+            while op[1] and s.endswith(op[1]):
+                s = s[:-len(op[1])]
+        elif k == "replace":
+            s = s.replace(op[1], op[2])
+        else:
+            raise ParseError("operation %r" % (op,))
+    return s
+
+
+def ops_text(ops):
+    return "name" + "".join("." + op[0] + "(" + ", ".join(repr(x) for x in op[1:]) + ")" for op in ops)
+
+
+def _split_stmts(toks):
+    """token list -> statements at `;` (nesting respected)"""
+    out, cur, depth = [], [], 0
+    for t in toks:
+        if t[0] == "p" and t[1] in "([{":
+            depth += 1
+        elif t[0] == "p" and t[1] in ")]}":
+            depth -= 1
+        if t == ("p", ";") and depth == 0:
+            out.append(cur)
+            cur = []
+        else:
+            cur.append(t)
+    if cur:
+        out.append(cur)
+    return out
+
+
+def _closure_body(src, anchor_re, what):
+    import translate
+    body = translate._fn_body(src, anchor_re)
+    if body is None:
+        raise ParseError("anchor not found: " + what)
+    return body
+
+
+def _repo(rel):
+    return open(os.path.join(vlib.REPO, rel)).read()
+
+
+_RULES = {}
+
+
+def key_rules():
+    """-> dict(ident=ops on the identifier text, client=ops on name, server=[ops on name, ..] (rename first, aliases in source
+    order)); raises ParseError when a source no longer has the shape that is understood"""
+    src_m, src_c, src_s = _repo("proc-macros/src/rpc_macro.rs"), _repo("proc-macros/src/render_client.rs"), _repo("proc-macros/src/render_server.rs")
+    key = hash((src_m, src_c, src_s))
+    if key in _RULES:
+        return _RULES[key]
+    # --- RpcFnArg::name: the rename string, else the identifier's text
+    body = _closure_body(src_m, r"pub fn name\(&self\) -> String\s*\{", "rpc_macro.rs RpcFnArg::name")
+    flat = re.sub(r"\s+", "", re.sub(r"//[^\n]*", "", body))
+    m = re.fullmatch(r"self\.rename_to\.clone\(\)\.unwrap_or_else\(\|\|self\.arg_pat\.ident((?:\.unraw\(\))?)\.to_string\(\)\)", flat)
+    if not m:
+        raise ParseError("rpc_macro.rs RpcFnArg::name is not `rename_to, else arg_pat.ident[.unraw()].to_string()`: %r" % flat)
+    ident_ops = (("unraw",),) if m.group(1) else ()
+    # --- client: encode_params, ParamKind::Map: `params.iter().map(|arg| { ..; quote!(#name, #value) })`
+    enc = _closure_body(src_c, r"fn encode_params\(", "render_client.rs encode_params")
+    mp = _closure_body(enc, r"ParamKind::Map\s*=>\s*\{", "render_client.rs encode_params ParamKind::Map")
+    cm = re.search(r"let params_insert = params\.iter\(\)\.map\(\|(\w+)\|\s*\{", mp)
+    if not cm:
+        raise ParseError("render_client.rs ParamKind::Map: `let params_insert = params.iter().map(|arg| {` not found")
+    cbody = _closure_body(mp, r"let params_insert = params\.iter\(\)\.map\(\|\w+\|\s*\{", "params_insert closure")
+    if len(re.findall(r"\.insert\(#params_insert\)", mp)) != 1:
+        raise ParseError("render_client.rs ParamKind::Map: `#p.insert(#params_insert)` not found exactly once")
+    client = _binding_rule(cbody, {cm.group(1)}, "render_client.rs ParamKind::Map key",
+                           final=lambda st: _quote_pair(st))
+    # --- server: render_params_decoding, the fields of ParamsObject
+    dec = _closure_body(src_s, r"fn render_params_decoding\(", "render_server.rs render_params_decoding")
+    sm = re.search(r"let fields = params\.iter\(\)\.zip\(generics\.clone\(\)\)\.map\(\|\((\w+), \w+\)\|\s*\{", dec)
+    if not sm:
+        raise ParseError("render_server.rs: `let fields = params.iter().zip(generics.clone()).map(|(fn_arg, ty)| {` not found")
+    sbody = _closure_body(dec, r"let fields = params\.iter\(\)\.zip\(generics\.clone\(\)\)\.map\(\|\(\w+, \w+\)\|\s*\{", "fields closure")
+    server = _server_rule(sbody, {sm.group(1)})
+    _RULES[key] = {"ident": ident_ops, "client": client, "server": server}
+    return _RULES[key]
+
+
+def _quote_pair(st):
+    """`quote!(#a, #b)` -> a"""
+    flat = "".join(t[1] for t in st)
+    m = re.fullmatch(r"quote!\(#(\w+),#(\w+)\)", flat)
+    return m.group(1) if m else None
+
+
+def _binding_rule(body, argvars, where, final):
+    """statements `let v = <name expression>;` (others must not mention a bound name), then the final expression names the key"""
+    env = {}
+    stmts = _split_stmts(_rtokens(body))
+    if not stmts:
+        raise ParseError(where + ": empty closure")
+    for st in stmts[:-1]:
+        if len(st) >= 4 and st[0] == ("id", "let") and st[1][0] == "id" and st[2] == ("p", "="):
+            var, rhs = st[1][1], st[3:]
+            try:
+                env[var] = _eval(rhs, env, argvars, where)
+                continue
+            except ParseError:
+                # not a name expression (e.g. `let value = arg.arg_pat()`): fine as long as no name flows into it
+                uses = [t[1] for t in rhs if t[0] == "id" and t[1] in env]
+                if uses or any(rhs[i][1] in argvars and rhs[i + 2] == ("id", "name") for i in range(len(rhs) - 2) if rhs[i][0] == "id"):
+                    raise
+                env.pop(var, None)
+                continue
+        raise ParseError("%s: statement %r not understood" % (where, " ".join(t[1] for t in st)))
+    var = final(stmts[-1])
+    if var is None or var not in env:
+        raise ParseError("%s: the closure does not end in the expected quote!(..) over a bound name: %r" % (where, " ".join(t[1] for t in stmts[-1])))
+    return env[var]
+
+
+def _server_rule(body, argvars):
+    where = "render_server.rs ParamsObject field"
+    env = {}
+    rename, aliases = None, []
+    toks = _rtokens(body)
+    for st in _split_stmts(toks):
+        flat = "".join(t[1] for t in st)
+        if len(st) >= 4 and st[0] == ("id", "let") and st[1][0] == "id" and st[2] == ("p", "="):
+            var, rhs = st[1][1], st[3:]
+            m = re.fullmatch(r"quote!\(#\[serde\(rename=#(\w+)\)\]\)", "".join(t[1] for t in rhs))
+            if m:
+                if m.group(1) not in env or rename is not None:
+                    raise ParseError(where + ": #[serde(rename = #..)] over an unbound name, or twice")
+                rename = env[m.group(1)]
+                continue
+            try:
+                env[var] = _eval(rhs, env, argvars, where)
+            except ParseError:
+                if [t for t in rhs if t[0] == "id" and t[1] in env and "alias" in flat and "format" in flat]:
+                    raise
+                env.pop(var, None)
+            continue
+        # alias_vals.push_str(&format!(r#"alias = "{}""#, <name expression>))
+        if ("str", 'alias = "{}"') in st:
+            i = st.index(("str", 'alias = "{}"'))
+            pre = "".join(t[1] for t in st[:i])
+            if not re.fullmatch(r"\w+\.push_str\(&format!\(", pre) or st[i + 1] != ("p", ",") or st[-2:] != [("p", ")"), ("p", ")")]:
+                raise ParseError("%s: alias statement %r not understood" % (where, flat))
+            aliases.append(_eval(st[i + 2:-2], env, argvars, where))
+            continue
+        if any(t[0] == "str" and "alias" in t[1] for t in st):
+            raise ParseError("%s: alias statement %r not understood" % (where, flat))
+    if rename is None:
+        raise ParseError(where + ": #[serde(rename = #name)] not found")
+    if not re.search(r"#serde_alias\s+#serde_rename\s+#arg_pat: #ty,", body) and not re.search(r"#serde_rename\s+#serde_alias\s+#arg_pat: #ty,", body):
+        raise ParseError(where + ": the field is not emitted as `#serde_alias #serde_rename #arg_pat: #ty,`")
+    return [rename] + aliases
+
+
+def param_keys(q, rules=None):
+    """-> (the member key the generated client writes, the keys the generated server accepts) for one parameter"""
+    r = rules or key_rules()
+    name = q["rename"] if q["rename"] is not None else apply_ops(r["ident"], q["ident"])
+    return apply_ops(r["client"], name), [apply_ops(o, name) for o in r["server"]]
+
+
 # ---------------------------------------------------------------- Coq output
 
 def cstr(s):
@@ -420,13 +800,20 @@ def cty(t):
     raise ParseError("type %r" % (t,))
 
 
-def cparam(q):
-    return "Param %s %s %s %s" % (cstr(q["ident"]), copt(q["rename"]), "true" if q["opt"] else "false", cty(q["ty"]))
+def cparam(q, rules):
+    # p_ident: the text RpcFnArg::name takes from the identifier (syn::Ident::to_string(): raw identifiers keep `r#`)
+    return "Param %s %s %s %s" % (cstr(apply_ops(rules["ident"], q["ident"])), copt(q["rename"]), "true" if q["opt"] else "false", cty(q["ty"]))
+
+
+def ckeys(q, rules):
+    ck, sks = param_keys(q, rules)
+    return "(%s, %s)" % (cstr(ck), clist(cstr(k) for k in sks))
 
 
 def run():
     try:
         types, order, apis = load()
+        rules = key_rules()
         out = ["(* GENERATED by tools/translators/macroapi.py from /verif/harness/src/bin/macroapi.rs (the #[rpc] family) -- do not edit *)",
                "From JV Require Import Base.Bytes Model.MacroApi.", "Local Open Scope N_scope.", ""]
         for n in order:
@@ -441,20 +828,33 @@ def run():
             ms = []
             for m in a["methods"]:
                 ms.append("Method %s %s %s %s %s %s" % (
-                    cstr(m["name"]), clist(cstr(x) for x in m["aliases"]), clist(cparam(q) for q in m["params"]),
+                    cstr(m["name"]), clist(cstr(x) for x in m["aliases"]), clist(cparam(q, rules) for q in m["params"]),
                     "PMap" if m["pkind"] == "map" else "PArray", {"sync": "MSync", "async": "MAsync", "blocking": "MBlocking"}[m["kind"]],
                     "None" if m["ret"] is None else "(Some %s)" % cty(m["ret"])))
             ss = []
             for s in a["subs"]:
                 ss.append("Subscription %s %s %s %s %s %s %s %s %s" % (
                     cstr(s["name"]), copt(s["notif"]), copt(s["unsub"]), clist(cstr(x) for x in s["aliases"]),
-                    clist(cstr(x) for x in s["unsub_aliases"]), clist(cparam(q) for q in s["params"]),
+                    clist(cstr(x) for x in s["unsub_aliases"]), clist(cparam(q, rules) for q in s["params"]),
                     "PMap" if s["pkind"] == "map" else "PArray", "true" if s["async"] else "false", cty(s["item"])))
             out.append("Definition api_%s : japi :=\n  Api %s %s\n    %s\n    %s." % (
                 a["trait"], copt(a["namespace"]), copt(a["separator"]),
                 "[ " + ";\n      ".join(ms) + " ]" if ms else "[]", "[ " + ";\n      ".join(ss) + " ]" if ss else "[]"))
             out.append("")
         out.append("Definition family : list japi := %s." % clist("api_" + a["trait"] for a in apis))
+        out.append("")
+        out.append("(* By-name member keys as the macro derives them, per API, per method then subscription (declaration order), per")
+        out.append("   parameter: (the key the generated client writes, the keys the generated server accepts: serde rename, aliases).")
+        out.append("   Rules read from /repo/proc-macros/src on this run (tools/translators/macroapi.py key_rules):")
+        out.append("     RpcFnArg::name            rename, else %s" % ops_text(rules["ident"]).replace("name", "ident.to_string()", 1))
+        out.append("     client (ParamKind::Map)   %s" % ops_text(rules["client"]))
+        out.append("     server (ParamsObject)     rename = %s; %s *)" % (ops_text(rules["server"][0]), "; ".join("alias = " + ops_text(o) for o in rules["server"][1:])))
+        rows = []
+        for a in apis:
+            items = ["%s (* %s *)" % (clist(ckeys(q, rules) for q in it["params"]), it["fn"]) for it in a["methods"] + a["subs"]]
+            body = "[ " + ";\n      ".join(items) + " ]" if items else "[]"
+            rows.append("    (* %s *)\n    %s" % (a["trait"], body))
+        out.append("Definition family_keys : list (list (list (bytes * list bytes))) :=\n  [\n%s\n  ]." % ";\n".join(rows))
         out.append("")
         vlib.write_if_changed(OUT, "\n".join(out))
         return None
